@@ -330,6 +330,37 @@ report_missing = FunctionContract(
 CONTRACTS.append(report_missing)
 
 
+# ------------------------------------------------------------------ AnnotateMutMod.run_system as a whole
+def setup_report_whole(cx):
+    args = setup_report(cx)
+    counts = cx.box('resspec_counts', TSeq(Entry))           # the processor keeps the records of a run in a list of its own
+    args['self'].attrs['resspec_counts'] = counts
+    system = args['system']
+
+    def run_system(e, s):
+        # Processor.run_system: run_molecule on every molecule, which appends one record per (molecule, request) - contract
+        # annotate_modifications.  The records of an earlier run must be gone by now
+        e.oblige(s is system, 'run:on-this-system')
+        e.oblige(TSeq(Entry).len(counts.e) == 0, 'records:of-earlier-runs-are-dropped-first')
+        counts.e = e.fresh(TSeq(Entry), 'records_of_this_run')
+    cx.spec_env['super'] = Builtin(lambda e: Obj('super', run_system=Builtin(run_system, 'Processor.run_system')), 'super')
+    return args
+
+
+report_whole = FunctionContract(
+    F, 'AnnotateMutMod.run_system', 'C19', short='run_system[whole]', setup=setup_report_whole, spec_defs=SPEC_REP,
+    blocks=[BlockSpec.of(report_missing)],
+    requires=["len(old(WARNED)) == 0"],
+    ensures=[
+        # the records of earlier runs are dropped before the molecules are processed, so that a request is reported exactly when it
+        # matched in none of the molecules of *this* run: once, modifications before mutations, in order
+    ] + list(report_missing.ensures),
+    modifies=['WARNED', 'self.resspec_counts'],
+    canary=[("del self.resspec_counts[:]", "pass")],
+)
+CONTRACTS.append(report_whole)
+
+
 # ------------------------------------------------------------------ annotate_modifications: one record per request
 ReqT = TKey('ReqT')
 CallRec = TTuple(TInt, TInt, TStr, names=['list', 'index', 'library'])      # a _resiter call: which request, which library
